@@ -141,4 +141,19 @@ CLAIMS = {
         'technique': 'static analysis: finite-domain decision tables by abstract interpretation, who-may-call / '
                      'who-writes sweeps, CFG must-pass-through over the Feedback class hierarchy (ast only)',
     },
+    'C12': {
+        'text': "verify() is analysed on a CFG with exception edges in which the ast.parse(code) call raises every "
+                "documented failure mode (IndentationError, other SyntaxError, ValueError, RecursionError, "
+                "MemoryError): no atom may leave verify(); syntax/indentation feedback is constructed exactly once in "
+                "the matching handler with the caught exception's own lineno/offset, never in the else-arm; success "
+                "flags, the stored tree (ast.parse of the unmodified text) and the blank test are checked by "
+                "def-use. An Optional[int] flow follows lineno/offset from the handler into syntax_error.__init__, "
+                "ExpandedTraceback.build_traceback, FakeFrame and _fix_frame_line and rejects arithmetic on a "
+                "possibly-None position; the reported line must be line + submission.line_offsets[filename].",
+        'note': _NOTE + "The three non-SyntaxError failure modes of the parser escaping verify() are recorded known "
+                        "findings. Not decided: agreement of the reported line with CPython's for every corrupted "
+                        "text beyond provenance.",
+        'technique': 'static analysis: exception-edge CFG with a frozen atom set for ast.parse, Optional-value '
+                     'dataflow across resolved callees, def-use provenance (ast only)',
+    },
 }
